@@ -1,0 +1,11 @@
+//go:build !verif
+
+// Package verifhook provides tracing and scheduling hooks used by external
+// verification tooling. Without the "verif" build tag every hook is a no-op.
+package verifhook
+
+// Emit records an event with key/value fields. No-op without the verif tag.
+func Emit(event string, kv ...any) {}
+
+// Gate announces arrival at a named point and waits for release. No-op without the verif tag.
+func Gate(point string) {}
